@@ -37,23 +37,43 @@ static inline int vp_eq(vp_mat_t const *A, vp_mat_t const *B) {
     for (int j = 0; j < VC; ++j) eq = eq && A->a[i][j] == B->a[i][j];
   return eq;
 }
+/* NOTE: no array is ever indexed with a symbolic value in this file (row/column numbers that depend on the data are
+ * handled by comparing a concrete loop counter with them): symbolic indices into the cell arrays made the formulas
+ * explode (measured: 3x5 elimination out of memory at 16 GB, seconds in this form). */
 static inline void vp_swap_rows(vp_mat_t *S, int r1, int r2) {
   for (int j = 0; j < VC; ++j) {
-    unsigned char t = S->a[r1][j];
-    S->a[r1][j]     = S->a[r2][j];
-    S->a[r2][j]     = t;
+    unsigned char v1 = 0, v2 = 0;
+    for (int i = 0; i < VR; ++i) {
+      if (i == r1) v1 = S->a[i][j];
+      if (i == r2) v2 = S->a[i][j];
+    }
+    for (int i = 0; i < VR; ++i) {
+      if (i == r1)
+        S->a[i][j] = v2;
+      else if (i == r2)
+        S->a[i][j] = v1;
+    }
   }
 }
 static inline void vp_swap_cols(vp_mat_t *S, int c1, int c2) {
   for (int i = 0; i < VR; ++i) {
-    unsigned char t = S->a[i][c1];
-    S->a[i][c1]     = S->a[i][c2];
-    S->a[i][c2]     = t;
+    unsigned char v1 = 0, v2 = 0;
+    for (int j = 0; j < VC; ++j) {
+      if (j == c1) v1 = S->a[i][j];
+      if (j == c2) v2 = S->a[i][j];
+    }
+    for (int j = 0; j < VC; ++j) {
+      if (j == c1)
+        S->a[i][j] = v2;
+      else if (j == c2)
+        S->a[i][j] = v1;
+    }
   }
 }
 /* textbook reduction to the unique reduced row echelon form; returns the rank, piv[t] = t-th pivot column */
 static inline int vp_rref(vp_mat_t *S, int piv[VR]) {
   int r = 0;
+  for (int t = 0; t < VR; ++t) piv[t] = -1;
   for (int c = 0; c < VC; ++c) {
     if (c >= S->nc || r >= S->nr) continue;
     int p = -1;
@@ -61,10 +81,18 @@ static inline int vp_rref(vp_mat_t *S, int piv[VR]) {
       if (i >= r && i < S->nr && S->a[i][c]) p = i;
     if (p < 0) continue;
     vp_swap_rows(S, r, p);
+    /* the pivot row (row number r, data dependent) is fetched with a concrete-index scan */
+    unsigned char prow[VC];
+    for (int j = 0; j < VC; ++j) {
+      prow[j] = 0;
+      for (int i = 0; i < VR; ++i)
+        if (i == r) prow[j] = S->a[i][j];
+    }
     for (int i = 0; i < VR; ++i)
       if (i != r && i < S->nr && S->a[i][c])
-        for (int j = 0; j < VC; ++j) S->a[i][j] ^= S->a[r][j];
-    piv[r] = c;
+        for (int j = 0; j < VC; ++j) S->a[i][j] ^= prow[j];
+    for (int t = 0; t < VR; ++t)
+      if (t == r) piv[t] = c;
     r++;
   }
   return r;
